@@ -61,7 +61,10 @@ def cands (cfg : C03.Cfg) (view : Route.Target → C13.RTarget) (t : Route.Table
 
 /-! ### a dumped table (what `c13.http` ships: the real `route.Table` after `NewTableCustom`) -/
 
-def chars (s : C13.Str) : Route.Str := s.map (fun b => Char.ofNat b.toNat)
+/-- a byte as the code point of the same number -/
+def b2c (b : UInt8) : Char := Char.ofNat b.toNat
+
+def chars (s : C13.Str) : Route.Str := s.map b2c
 
 /-- one route of the dump: its path and its single target as the redirect code reads it -/
 structure DRoute where
